@@ -169,11 +169,13 @@ local function _lua_invoke(mod_name, fn_name, frame, page_title, timeout)
         if initfn then
             success, mod = pcall(initfn)
             if not success then
+                _lua_clear_timeout_hook()
                 return false, ("\tLoading module failed in #invoke: " ..
                                mod_name .. "\n" .. tostring(mod))
             end
             _save_mod(mod_name, mod)
         else
+            _lua_clear_timeout_hook()
             error("Could not find module " .. mod_name .. ": " .. msg)
         end
     end
@@ -181,6 +183,7 @@ local function _lua_invoke(mod_name, fn_name, frame, page_title, timeout)
     -- Look up the target function in the module
     local fn = mod[fn_name]
     if fn == nil then
+        _lua_clear_timeout_hook()
         return false, "\tNo function '" .. fn_name .. "' in module " .. mod_name
     end
     -- Call the function in the module
